@@ -8,12 +8,13 @@ Import ListNotations.
 Open Scope N_scope.
 
 (* membership of the regenerated operations in the class *)
-Lemma all_classified : forallb (classified api_ops) api_ops = true.
+Lemma all_classified : forallb (classified_or_downgraded api_ops) api_ops = true.
 Proof. vm_compute. reflexivity. Qed.
 Lemma all_exclusive : forallb (exclusive api_ops) api_ops = true.
 Proof. vm_compute. reflexivity. Qed.
 
-Lemma classified_in o : In o api_ops -> simple_checked api_ops o = true \/ handled o = true.
+Lemma classified_in o : In o api_ops ->
+  simple_checked api_ops o = true \/ handled o = true \/ tainted api_ops o = true.
 Proof. exact (classified_in_gen api_ops all_classified o). Qed.
 
 (* the decoder leaves only the completion code set on error (from C02) *)
